@@ -35,6 +35,14 @@ def design(ctx):
     if resm["violated"] != "ModelComputesLearnedFunction":
         raise vlib.ToolError("spec mutant (type vectors laid out with the character window) was not rejected by TLC")
     ctx.add_part(spec_mutant="type n-gram vectors sized/indexed with the character window", rejected_by="ModelComputesLearnedFunction")
+    # unbounded: the slot arithmetic shared by trainer and scorer, proved for all integers (TLAPS)
+    import os
+    proved, total = vlib.tlapm("C09-slot-lemmas", os.path.join(vlib.SPEC, "proofs", "SlotLemmas.tla"))
+    if proved != total:
+        raise vlib.ToolError(f"SlotLemmas: only {proved} of {total} proof obligations discharged")
+    ctx.add_part(tlaps="SlotLemmas: SlotAgreement, SlotInRangeIffInWindow, DictSlots, FixedVectorFits (slot written by the trainer = slot read by "
+                       "the scorer; in-window <=> in-vector; dictionary sides; 7-slot padding suffices) for all integers",
+                 obligations=total, discharged=proved)
 
 
 def run(ctx):
